@@ -18,6 +18,7 @@ import (
 )
 
 type Exec struct {
+	effFree map[*ssa.Function]int // effectFree memo: 1 yes, 2 no, 3 in progress
 	P        *Program
 	syms     *SymTab
 	nextObj  int
@@ -612,6 +613,9 @@ func (ex *Exec) globalObj(st *State, g *ssa.Global) int {
 				name = g.Pkg.Pkg.Name() + "." + name
 			}
 			st.heap[id] = &IfaceV{Unk: true, NonNil: true, Sentinel: name}
+			ex.constObj[id] = true
+		} else if v, ok := ex.sliceLiteralGlobal(st, g); ok {
+			st.heap[id] = v
 			ex.constObj[id] = true
 		} else if v, ok := ex.initGlobal(st, g); ok {
 			st.heap[id] = v
@@ -1726,6 +1730,9 @@ func (ex *Exec) havocLoop(fr *Frame, st *State, li *loopInfo) {
 				// the package-level variables); operands computed inside the loop are unknown here, so they must be scalars.
 				// A read from a bytes.Reader changes only the reader's position and the destination buffer, not the
 				// bytes it reads from.
+				if cal := x.Call.StaticCallee(); cal != nil && ex.effectFree(cal, 0) {
+					continue // writes nothing outside its own frame (e.g. a logging helper): earlier iterations changed nothing
+				}
 				var ops []ssa.Value
 				ops = append(ops, x.Call.Value)
 				ops = append(ops, x.Call.Args...)
@@ -1777,6 +1784,9 @@ func (ex *Exec) havocLoop(fr *Frame, st *State, li *loopInfo) {
 						continue
 					}
 					break
+				}
+				if al, isAl := base.(*ssa.Alloc); isAl && li.Body[al.Block()] {
+					break // an object created in the same iteration: nothing that existed at the loop head is written
 				}
 				v, ok := fr.regs[base]
 				if !ok {
@@ -2366,4 +2376,100 @@ func shiftDownBound(li *loopInfo) int {
 		}
 	}
 	return 0
+}
+
+// effectFree: a module function that stores only into its own local allocations and calls only functions of the same
+// kind, printf-style logger methods (treated as sinks, see invokeSummary) and a few pure formatting functions. Used to
+// keep the generic iteration of a loop from forgetting the heap because of a logging call in its body.
+func (ex *Exec) effectFree(fn *ssa.Function, depth int) bool {
+	if fn == nil || fn.Blocks == nil || depth > 4 {
+		return false
+	}
+	if ex.effFree == nil {
+		ex.effFree = map[*ssa.Function]int{}
+	}
+	switch ex.effFree[fn] {
+	case 1:
+		return true
+	case 2:
+		return false
+	case 3:
+		return false // recursion
+	}
+	ex.effFree[fn] = 3
+	ok := true
+	localBase := func(v ssa.Value) bool {
+		for i := 0; i < 8; i++ {
+			switch a := v.(type) {
+			case *ssa.IndexAddr:
+				v = a.X
+			case *ssa.FieldAddr:
+				v = a.X
+			case *ssa.Alloc:
+				return true
+			default:
+				return false
+			}
+		}
+		return false
+	}
+	for _, b := range fn.Blocks {
+		for _, in := range b.Instrs {
+			switch x := in.(type) {
+			case *ssa.Store:
+				if !localBase(x.Addr) {
+					ok = false
+				}
+			case *ssa.MapUpdate, *ssa.Send, *ssa.Go, *ssa.Defer, *ssa.Select, *ssa.Panic:
+				ok = false
+			case *ssa.Call:
+				cc := x.Common()
+				if bi, isB := cc.Value.(*ssa.Builtin); isB {
+					switch bi.Name() {
+					case "len", "cap", "append", "min", "max":
+					default:
+						ok = false
+					}
+					continue
+				}
+				if cc.IsInvoke() {
+					switch cc.Method.Name() {
+					case "Printf", "String", "Error":
+					default:
+						ok = false
+					}
+					continue
+				}
+				cal := cc.StaticCallee()
+				if cal == nil {
+					ok = false
+					continue
+				}
+				if cal.Blocks != nil && cal.Pkg != nil && strings.HasPrefix(cal.Pkg.Pkg.Path(), modPath) {
+					if !ex.effectFree(cal, depth+1) {
+						ok = false
+					}
+					continue
+				}
+				switch callNameOf(cal) {
+				case "fmt.Sprintf", "fmt.Sprint", "fmt.Errorf", "fmt.Sprintln":
+				default:
+					ok = false
+				}
+			}
+		}
+	}
+	if ok {
+		ex.effFree[fn] = 1
+	} else {
+		ex.effFree[fn] = 2
+	}
+	return ok
+}
+
+func callNameOf(f *ssa.Function) string {
+	if f.Pkg != nil && f.Signature.Recv() == nil {
+		return f.Pkg.Pkg.Path() + "." + f.Name()
+	}
+	return f.String()
 }
